@@ -3,6 +3,7 @@ package main
 import (
 	"crypto/md5"
 	"crypto/rand"
+	"errors"
 	"fmt"
 	"io"
 
@@ -183,6 +184,18 @@ func init() {
 			t.I(0)
 			tPacket(t, p)
 			c.Add(Case{Req: Req{Name: "new", Bs: [][]byte{sec, rd.data}, Zs: []string{Z(int64(code))}}, Impl: t.String(), Tag: "new", NoSpec: true})
+			// a random source that fails (after k < 17 bytes): no packet with predictable fields may come out
+			if i%10 == 0 {
+				k := r.Intn(17)
+				fr := &failingReader{left: k}
+				var q *radius.Packet
+				panicked := false
+				withRand(fr, func() { panicked = safely(func() { q = radius.New(radius.Code(code), sec) }) })
+				if !panicked && q != nil {
+					c.Fail("spec", "new", "new-failing-source", fmt.Sprintf("crypto/rand.Reader fails after %d bytes", k), fmt.Sprintf("a packet with identifier %d authenticator %x", q.Identifier, q.Authenticator[:]), "no packet (panic)", "New draws identifier and authenticator fresh from the cryptographic source; when the source fails it must not hand out a packet with predictable fields")
+				}
+				c.Count("new-failing-source", fmt.Sprint(k))
+			}
 			// Response
 			m := genPacket(r)
 			rc := r.Pick(2, 3, 5, 11, 41, 300)
@@ -196,6 +209,27 @@ func init() {
 		c.Trivial("encode-unknown", "isreq-other-code")
 		c.Flush()
 		c.RequireTags("encode-verbatim", "encode-zero", "encode-reply", "encode-unknown", "isreq-authentic-1", "isreq-authentic-4", "isreq-authentic-40", "isreq-authentic-43", "isreq-authentic-12", "isreq-other-code-digest",
-			"isreq-hdr-flip", "isreq-body-flip", "isreq-empty-secret", "isresp-authentic", "isresp-hdr-flip", "isresp-body-flip", "isresp-truncated", "isresp-extended", "isresp-empty-secret", "isresp-wrong-secret", "isresp-other-request", "new", "response")
+			"isreq-hdr-flip", "isreq-body-flip", "isreq-empty-secret", "isresp-authentic", "isresp-hdr-flip", "isresp-body-flip", "isresp-truncated", "isresp-extended", "isresp-empty-secret", "isresp-wrong-secret", "isresp-other-request", "new", "new-failing-source", "response")
 	}
+}
+
+// a random source that delivers `left` bytes and then fails
+type failingReader struct{ left int }
+
+func (f *failingReader) Read(p []byte) (int, error) {
+	if f.left <= 0 {
+		return 0, errors.New("verif: entropy source failed")
+	}
+	n := len(p)
+	if n > f.left {
+		n = f.left
+	}
+	for i := 0; i < n; i++ {
+		p[i] = 0
+	}
+	f.left -= n
+	if n < len(p) {
+		return n, errors.New("verif: entropy source failed")
+	}
+	return n, nil
 }
